@@ -3991,7 +3991,7 @@ func (ce *callEngine) callNativeFunc(ctx context.Context, m *wasm.ModuleInstance
 			switch unsignedType(op.B1) {
 			case unsignedTypeI32:
 				if offset%4 != 0 {
-					panic(wasmruntime.ErrRuntimeUnalignedAtomic)
+					panic(unalignedAtomicError(memoryInst, offset, 4))
 				}
 				if int(offset) > len(memoryInst.Buffer)-4 {
 					panic(wasmruntime.ErrRuntimeOutOfBoundsMemoryAccess)
@@ -4004,7 +4004,7 @@ func (ce *callEngine) callNativeFunc(ctx context.Context, m *wasm.ModuleInstance
 				}))
 			case unsignedTypeI64:
 				if offset%8 != 0 {
-					panic(wasmruntime.ErrRuntimeUnalignedAtomic)
+					panic(unalignedAtomicError(memoryInst, offset, 8))
 				}
 				if int(offset) > len(memoryInst.Buffer)-8 {
 					panic(wasmruntime.ErrRuntimeOutOfBoundsMemoryAccess)
@@ -4021,7 +4021,7 @@ func (ce *callEngine) callNativeFunc(ctx context.Context, m *wasm.ModuleInstance
 			count := ce.popValue()
 			offset := ce.popMemoryOffset(op)
 			if offset%4 != 0 {
-				panic(wasmruntime.ErrRuntimeUnalignedAtomic)
+				panic(unalignedAtomicError(memoryInst, offset, 4))
 			}
 			// Just a bounds check
 			if offset >= memoryInst.Size() {
@@ -4044,7 +4044,7 @@ func (ce *callEngine) callNativeFunc(ctx context.Context, m *wasm.ModuleInstance
 			switch unsignedType(op.B1) {
 			case unsignedTypeI32:
 				if offset%4 != 0 {
-					panic(wasmruntime.ErrRuntimeUnalignedAtomic)
+					panic(unalignedAtomicError(memoryInst, offset, 4))
 				}
 				memoryInst.Mux.Lock()
 				val, ok := memoryInst.ReadUint32Le(offset)
@@ -4055,7 +4055,7 @@ func (ce *callEngine) callNativeFunc(ctx context.Context, m *wasm.ModuleInstance
 				ce.pushValue(uint64(val))
 			case unsignedTypeI64:
 				if offset%8 != 0 {
-					panic(wasmruntime.ErrRuntimeUnalignedAtomic)
+					panic(unalignedAtomicError(memoryInst, offset, 8))
 				}
 				memoryInst.Mux.Lock()
 				val, ok := memoryInst.ReadUint64Le(offset)
@@ -4079,7 +4079,7 @@ func (ce *callEngine) callNativeFunc(ctx context.Context, m *wasm.ModuleInstance
 		case operationKindAtomicLoad16:
 			offset := ce.popMemoryOffset(op)
 			if offset%2 != 0 {
-				panic(wasmruntime.ErrRuntimeUnalignedAtomic)
+				panic(unalignedAtomicError(memoryInst, offset, 2))
 			}
 			memoryInst.Mux.Lock()
 			val, ok := memoryInst.ReadUint16Le(offset)
@@ -4095,7 +4095,7 @@ func (ce *callEngine) callNativeFunc(ctx context.Context, m *wasm.ModuleInstance
 			switch unsignedType(op.B1) {
 			case unsignedTypeI32:
 				if offset%4 != 0 {
-					panic(wasmruntime.ErrRuntimeUnalignedAtomic)
+					panic(unalignedAtomicError(memoryInst, offset, 4))
 				}
 				memoryInst.Mux.Lock()
 				ok := memoryInst.WriteUint32Le(offset, uint32(val))
@@ -4105,7 +4105,7 @@ func (ce *callEngine) callNativeFunc(ctx context.Context, m *wasm.ModuleInstance
 				}
 			case unsignedTypeI64:
 				if offset%8 != 0 {
-					panic(wasmruntime.ErrRuntimeUnalignedAtomic)
+					panic(unalignedAtomicError(memoryInst, offset, 8))
 				}
 				memoryInst.Mux.Lock()
 				ok := memoryInst.WriteUint64Le(offset, val)
@@ -4129,7 +4129,7 @@ func (ce *callEngine) callNativeFunc(ctx context.Context, m *wasm.ModuleInstance
 			val := uint16(ce.popValue())
 			offset := ce.popMemoryOffset(op)
 			if offset%2 != 0 {
-				panic(wasmruntime.ErrRuntimeUnalignedAtomic)
+				panic(unalignedAtomicError(memoryInst, offset, 2))
 			}
 			memoryInst.Mux.Lock()
 			ok := memoryInst.WriteUint16Le(offset, val)
@@ -4144,7 +4144,7 @@ func (ce *callEngine) callNativeFunc(ctx context.Context, m *wasm.ModuleInstance
 			switch unsignedType(op.B1) {
 			case unsignedTypeI32:
 				if offset%4 != 0 {
-					panic(wasmruntime.ErrRuntimeUnalignedAtomic)
+					panic(unalignedAtomicError(memoryInst, offset, 4))
 				}
 				memoryInst.Mux.Lock()
 				old, ok := memoryInst.ReadUint32Le(offset)
@@ -4172,7 +4172,7 @@ func (ce *callEngine) callNativeFunc(ctx context.Context, m *wasm.ModuleInstance
 				ce.pushValue(uint64(old))
 			case unsignedTypeI64:
 				if offset%8 != 0 {
-					panic(wasmruntime.ErrRuntimeUnalignedAtomic)
+					panic(unalignedAtomicError(memoryInst, offset, 8))
 				}
 				memoryInst.Mux.Lock()
 				old, ok := memoryInst.ReadUint64Le(offset)
@@ -4233,7 +4233,7 @@ func (ce *callEngine) callNativeFunc(ctx context.Context, m *wasm.ModuleInstance
 			val := ce.popValue()
 			offset := ce.popMemoryOffset(op)
 			if offset%2 != 0 {
-				panic(wasmruntime.ErrRuntimeUnalignedAtomic)
+				panic(unalignedAtomicError(memoryInst, offset, 2))
 			}
 			memoryInst.Mux.Lock()
 			old, ok := memoryInst.ReadUint16Le(offset)
@@ -4268,7 +4268,7 @@ func (ce *callEngine) callNativeFunc(ctx context.Context, m *wasm.ModuleInstance
 			switch unsignedType(op.B1) {
 			case unsignedTypeI32:
 				if offset%4 != 0 {
-					panic(wasmruntime.ErrRuntimeUnalignedAtomic)
+					panic(unalignedAtomicError(memoryInst, offset, 4))
 				}
 				memoryInst.Mux.Lock()
 				old, ok := memoryInst.ReadUint32Le(offset)
@@ -4283,7 +4283,7 @@ func (ce *callEngine) callNativeFunc(ctx context.Context, m *wasm.ModuleInstance
 				ce.pushValue(uint64(old))
 			case unsignedTypeI64:
 				if offset%8 != 0 {
-					panic(wasmruntime.ErrRuntimeUnalignedAtomic)
+					panic(unalignedAtomicError(memoryInst, offset, 8))
 				}
 				memoryInst.Mux.Lock()
 				old, ok := memoryInst.ReadUint64Le(offset)
@@ -4319,7 +4319,7 @@ func (ce *callEngine) callNativeFunc(ctx context.Context, m *wasm.ModuleInstance
 			exp := uint16(ce.popValue())
 			offset := ce.popMemoryOffset(op)
 			if offset%2 != 0 {
-				panic(wasmruntime.ErrRuntimeUnalignedAtomic)
+				panic(unalignedAtomicError(memoryInst, offset, 2))
 			}
 			memoryInst.Mux.Lock()
 			old, ok := memoryInst.ReadUint16Le(offset)
@@ -4655,4 +4655,13 @@ func v128Dot(x1Hi, x1Lo, x2Hi, x2Lo uint64) (uint64, uint64) {
 	r7 := int32(int16(x1Hi>>32)) * int32(int16(x2Hi>>32))
 	r8 := int32(int16(x1Hi>>48)) * int32(int16(x2Hi>>48))
 	return uint64(uint32(r1+r2)) | (uint64(uint32(r3+r4)) << 32), uint64(uint32(r5+r6)) | (uint64(uint32(r7+r8)) << 32)
+}
+
+// unalignedAtomicError returns the error for an atomic access at a misaligned offset. An access
+// which is also out of bounds reports that, as bounds are checked first like the compiler does.
+func unalignedAtomicError(mem *wasm.MemoryInstance, offset uint32, size uint64) *wasmruntime.Error {
+	if uint64(offset)+size > uint64(len(mem.Buffer)) {
+		return wasmruntime.ErrRuntimeOutOfBoundsMemoryAccess
+	}
+	return wasmruntime.ErrRuntimeUnalignedAtomic
 }
